@@ -105,6 +105,32 @@ fn run(name: &str, a: i128, b: i128) -> String {
         "f64_is_inf" => { let v = t_f64_is_inf(a, b); format!("B {}", v as u8) }
         "f64_gt_max" => { let v = t_f64_gt_max(a, b); format!("B {}", v as u8) }
         "f64_lt_min" => { let v = t_f64_lt_min(a, b); format!("B {}", v as u8) }
+        "range_sum" => { let v = t_range_sum(a, b); format!("I {}", v) }
+        "range_incl" => { let v = t_range_incl(a, b); format!("I {}", v) }
+        "rem_euclid" => { let v = t_rem_euclid(a, b); format!("I {}", v) }
+        "div_euclid" => { let v = t_div_euclid(a, b); format!("I {}", v) }
+        "ilog10" => { let v = t_ilog10(a, b); format!("I {}", v) }
+        "map_or" => { let v = t_map_or(a, b); format!("I {}", v) }
+        "opt_filter" => { let v = t_opt_filter(a, b); match v { Some(x) => format!("S {}", x), None => "N".to_string() } }
+        "opt_zip" => { let v = t_opt_zip(a, b); format!("I {}", v) }
+        "is_some_and" => { let v = t_is_some_and(a, b); format!("B {}", v as u8) }
+        "tuple_match" => { let v = t_tuple_match(a, b); format!("I {}", v) }
+        "table_lookup" => { let v = t_table_lookup(a, b); format!("I {}", v) }
+        "while_loop" => { let v = t_while_loop(a, b); format!("I {}", v) }
+        "count_ones" => { let v = t_count_ones(a, b); format!("I {}", v) }
+        "u128_mid" => { let v = t_u128_mid(a, b); format!("I {}", v) }
+        "clamp_i" => { let v = t_clamp_i(a, b); format!("I {}", v) }
+        "saturating_neg" => { let v = t_saturating_neg(a, b); format!("I {}", v) }
+        "sat_abs" => { let v = t_sat_abs(a, b); format!("I {}", v) }
+        "checked_ilog10" => { let v = t_checked_ilog10(a, b); match v { Some(x) => format!("S {}", x), None => "N".to_string() } }
+        "checked_ilog10_s" => { let v = t_checked_ilog10_s(a, b); match v { Some(x) => format!("S {}", x), None => "N".to_string() } }
+        "let_else" => { let v = t_let_else(a, b); format!("I {}", v) }
+        "then_ok_or" => { let v = t_then_ok_or(a, b); format!("I {}", v) }
+        "f64_div" => { let v = t_f64_div(a, b); format!("I {}", v) }
+        "f64_mul" => { let v = t_f64_mul(a, b); format!("I {}", v) }
+        "f32_div" => { let v = t_f32_div(a, b); format!("I {}", v) }
+        "f32_add" => { let v = t_f32_add(a, b); format!("I {}", v) }
+        "i64_ratio_f32" => { let v = t_i64_ratio_f32(a, b); format!("I {}", v) }
         _ => "BADNAME".to_string(),
     }
 }
